@@ -103,6 +103,16 @@ def _pos_sum(e):
     return True
 
 
+def _shrinking_resize(arg, recv_path):
+    """x.resize(x.size() - c) with constant c >= 1"""
+    a = X.strip(arg)
+    if isinstance(a, dict) and a.get("k") == "bin" and a.get("op") == "-" and _const_pos(a["r"]):
+        l = X.strip(a["l"])
+        return isinstance(l, dict) and l.get("k") == "call" and l.get("name") in ("size", "length") and l.get("recv") is not None \
+            and X.path(l["recv"]) == recv_path
+    return False
+
+
 def progress_of(n):
     """(direction, path) for a statement-level node that moves a variable, ('wild', path) for other writes."""
     k = n.get("k")
@@ -129,7 +139,9 @@ def progress_of(n):
         p = X.path(n["recv"])
         nm = n.get("name")
         if p:
-            if nm in ("remove_prefix", "remove_suffix") and n.get("args") and _const_pos(n["args"][0]):
+            if nm in ("remove_prefix", "remove_suffix") and n.get("args") and (_const_pos(n["args"][0]) or _pos_sum(n["args"][0])):
+                out.append(("shrink", p))
+            elif nm == "resize" and n.get("args") and _shrinking_resize(n["args"][0], p):
                 out.append(("shrink", p))
             elif nm == "pop_back":
                 out.append(("shrink", p))
